@@ -51,6 +51,7 @@ enum ExcKind { X_ELEM, X_ALLOC, X_ITER };
 struct Boom { ExcKind kind; };
 
 static std::vector<long> g_faults;          // countdowns (front = active)
+static long g_iter_fault = -1;              // separate countdown for the caller's iterators (monitor-only runs; not modelled)
 static bool g_window = false;               // inside a container call
 static std::vector<std::string> g_events;
 static std::vector<std::string> g_wmsgs;    // monitor findings of the current op
@@ -60,6 +61,12 @@ static long g_elem_events_this_op = 0;
 static void wmsg (const char *prop, const std::string& what)
 {
   g_wmsgs.push_back (std::string ("W! ") + prop + " " + what);
+}
+
+static inline void tick_iter (void)
+{
+  if (g_window && g_iter_fault >= 0 && g_iter_fault-- == 0)
+    throw Boom { X_ITER };
 }
 
 static inline void tick (ExcKind k)
@@ -387,10 +394,10 @@ struct FwdIt    // a plain forward iterator over external elements (not contiguo
   const E *p;
   FwdIt () : p (0) { }
   explicit FwdIt (const E *q) : p (q) { }
-  reference operator* () const { return *p; }
+  reference operator* () const { tick_iter (); return *p; }
   pointer operator-> () const { return p; }
-  FwdIt& operator++ () { ++p; return *this; }
-  FwdIt operator++ (int) { FwdIt t (*this); ++p; return t; }
+  FwdIt& operator++ () { tick_iter (); ++p; return *this; }
+  FwdIt operator++ (int) { FwdIt t (*this); tick_iter (); ++p; return t; }
   friend bool operator== (const FwdIt& a, const FwdIt& b) { return a.p == b.p; }
   friend bool operator!= (const FwdIt& a, const FwdIt& b) { return a.p != b.p; }
 };
@@ -408,6 +415,7 @@ struct InIt
   InIt (Stream *st, bool e) : s (st), pos (e ? st->n : 0), is_end (e) { }
   reference operator* () const
   {
+    tick_iter ();
     if (is_end || pos >= s->n) { wmsg ("C15", "dereference at or beyond last"); return s->base[0]; }
     if (pos != s->cursor) wmsg ("C15", "dereference through a stale copy of an advanced single-pass iterator");
     if (s->last_deref == pos) wmsg ("C15", "position dereferenced twice");
@@ -417,6 +425,7 @@ struct InIt
   }
   InIt& operator++ ()
   {
+    tick_iter ();
     if (is_end || pos >= s->n) { wmsg ("C15", "increment at or beyond last"); return *this; }
     if (pos != s->cursor) wmsg ("C15", "increment of a stale copy of an advanced single-pass iterator");
     std::ostringstream o; o << "+" << s->sid << "." << pos; g_events.push_back (o.str ());
@@ -941,6 +950,16 @@ static void run_line (const std::string& line_in)
       return;
     }
   }
+  // iterator-fault suffix (monitor-only)
+  g_iter_fault = -1;
+  {
+    std::size_t ex = line.find (" !");
+    if (ex != std::string::npos)
+    {
+      long k; if (! to_nat (line.substr (ex + 2), k)) { std::puts ("bad-op"); return; }
+      g_iter_fault = k; line = line.substr (0, ex);
+    }
+  }
   // split off the fault suffix
   std::size_t at = line.find (" @");
   std::string ftxt;
@@ -1004,6 +1023,7 @@ static void run_line (const std::string& line_in)
   catch (const std::out_of_range&) { g_window = false; exc = "range"; }
   catch (const std::bad_alloc&) { g_window = false; exc = "alloc"; }
   g_faults.clear ();
+  g_iter_fault = -1;
   std::string out = exc == "-" ? (k.out.empty () ? std::string ("-") : k.out) : std::string ("-");
   std::string line_out = obs_line (out, exc);
 
